@@ -1315,6 +1315,10 @@ package flags
 //@   at[C12] call Option.setDefault #1: pval != nil && opt.value.Type().Kind() == reflect.Map && !section[idx_3].Quoted && len(strings.SplitN(inival.Value, ":", 2)) == 2 ==> *pval == strings.SplitN(inival.Value, ":", 2)[0] + ":" + iniMapDecode(strings.SplitN(inival.Value, ":", 2)[1])
 //@   ensures[C14] err != nil ==> isTyped(err, ErrUnknownGroup) || (is(err, *IniError) && as(err, *IniError) != nil && as(err, *IniError).File == ini.File)
 //@   ensures[C14] isTyped(err, ErrUnknownGroup) ==> p.Options&IgnoreUnknown == 0
+// (C14: an unknown section is reported whatever it contains - every named section of a file that was read without
+// error and without IgnoreUnknown resolved to a group, the sections without entries included)
+//@   loop 2 invariant[C14] forall(k, 0, idx_2, old(i.parser.Options)&IgnoreUnknown == 0 && len(ini.order[k]) != 0 ==> i.parser.Command.groupByName(ini.order[k]) != nil)
+//@   ensures[C14] err == nil ==> forall(k, 0, len(ini.order), old(i.parser.Options)&IgnoreUnknown == 0 && len(ini.order[k]) != 0 ==> i.parser.Command.groupByName(ini.order[k]) != nil)
 
 
 // ===================================================================
